@@ -380,6 +380,19 @@ def check_seq(seq, stats):
                 declared = int(mi.group(1)) in id2arch
                 if declared and "err" in (ms.group(1), ms.group(2)):
                     hits.append(hit("C14", seq, no, raw, f"SelectArchetype::try_from fails for the declared archetype id {mi.group(1)}", "select-archetype-err"))
+            mtf = re.search(r"\btf=\[(.*?)\]", obs)
+            if mi and mtf:
+                # try_from / from_any succeed exactly for the archetype whose id the handle carries,
+                # and fail as documented (Err / panic) for every other archetype, in every build
+                for a_, ent_ in enumerate(mtf.group(1).split()):
+                    if a_ >= len(ids) or "/" not in ent_:
+                        continue
+                    tfv, fav = ent_.split("/", 1)
+                    same = ids[a_] == int(mi.group(1))
+                    if same and not (tfv.startswith("ok:") and fav.startswith("ok:")):
+                        hits.append(hit("C14", seq, no, raw, f"conversion of a handle with archetype id {mi.group(1)} into its own archetype {a_} failed: try_from={tfv[:30]} from_any={fav[:30]}", "typed-conversion"))
+                    if not same and (tfv != "err" or not fav.startswith("!")):
+                        hits.append(hit("C14", seq, no, raw, f"conversion of a handle with archetype id {mi.group(1)} into archetype {a_} (id {ids[a_]}) did not fail as documented: try_from={tfv[:40]} from_any={fav[:40]}", "typed-conversion"))
             msel = re.search(r"\bsel=(\S+)", obs)
             if mi and msel and msel.group(1) != "err":
                 a_ = int(msel.group(1).split(":")[0])
